@@ -205,6 +205,44 @@ theorem heaviside_smooth_sound {m : ℕ} (eps : ℝ) (he : eps ≠ 0) (a : Vec m
     (ewise1 (heavisideSmoothRule eps)).SoundAt a :=
   ewise1_soundAt _ a fun i => heavisideSmooth_sound1 eps (a i) he
 
+/-! ## the smoothness hypothesis as explicit input conditions; Newton; sub-systems -/
+
+/-- Every tree built from the vocabulary (the only node kinds the tree auditor finds in the shipped models) is in its
+    smooth region at every ADMISSIBLE state, admissibility being a conjunction of explicit (in)equalities on node values:
+    nonzero denominators, no tie of a `maximum`, positive base of `a ** b`, nonzero argument of `log`/`abs`/`heaviside`,
+    `|argument| ≠ tol`, `|argument| < 1` for arcsin/arccos/arctanh, `> 1` for arccosh, no vanishing cell vector in `l2_norm`. -/
+theorem vocab_tree_smooth {n k : ℕ} (t : VTree n k) (x : Vec n) (h : t.Admissible x) : t.toTree.Smooth x :=
+  VTree.smooth t x h
+
+/-- HEADLINE without the abstract hypothesis: for every system of vocabulary trees, every admissible state, every
+    direction and row, the assembled Jacobian times the direction is the derivative of the assembled residual. -/
+theorem vocab_assemble_jac_is_derivative {n E : ℕ} {k : Fin E → ℕ} (eqs : (e : Fin E) → VTree n (k e)) (x : Vec n)
+    (h : ∀ e, (eqs e).Admissible x) (δ : Vec n) (r : Row k) :
+    HasDerivAt (fun ε : ℝ => residual (fun e => (eqs e).toTree) (x + ε • δ) r)
+      ((assembleJac (fun e => (eqs e).toTree) x).mulVec δ r) 0 :=
+  assemble_jac_is_derivative (fun e => (eqs e).toTree) x (fun e => VTree.smooth (eqs e) x (h e)) δ r
+
+/-- "Newton's method therefore uses the exact linearization": if `δ` solves the assembled system `A δ = b`
+    (`b = -residual`), then along `δ` every residual component decreases at first order exactly at the rate of its own
+    size: `d/dε residual(x + ε δ)_r |₀ = -residual(x)_r`. -/
+theorem newton_step_exact_linearization {n E : ℕ} {k : Fin E → ℕ} (eqs : (e : Fin E) → Tree n (k e)) (x : Vec n)
+    (h : ∀ e, (eqs e).Smooth x) (δ : Vec n) (hδ : (assembleJac eqs x).mulVec δ = assembleRhs eqs x) (r : Row k) :
+    HasDerivAt (fun ε : ℝ => residual eqs (x + ε • δ) r) (-(residual eqs x r)) 0 := by
+  have := assemble_jac_is_derivative eqs x h δ r
+  rw [hδ] at this
+  simpa [residual] using this
+
+/-- `assemble(equations=…, variables=…)`: rows `rows` (equations in storage order, possibly restricted to grids) and
+    columns `cols` (dofs of the requested variables) of the full system.  The sliced matrix times a reduced direction
+    `η` is the derivative of the selected residual rows along the direction that moves only the selected dofs. -/
+theorem assemble_subsystem_jac_is_derivative {n E q p : ℕ} {k : Fin E → ℕ} (eqs : (e : Fin E) → Tree n (k e))
+    (x : Vec n) (h : ∀ e, (eqs e).Smooth x) (rows : Fin q → Row k) (cols : Fin p → Fin n) (η : Vec p) (i : Fin q) :
+    HasDerivAt (fun ε : ℝ => residual eqs (x + ε • scatter cols η) (rows i))
+      (((assembleJac eqs x).submatrix rows cols).mulVec η i) 0 := by
+  have := assemble_jac_is_derivative eqs x h (scatter cols η) (rows i)
+  rw [mulVec_scatter] at this
+  simpa [residual, Matrix.mulVec, dotProduct, Matrix.submatrix] using this
+
 /-! ## non-vacuity: a concrete two-equation system over three unknowns -/
 
 section example_system
@@ -275,6 +313,52 @@ example : contactTree.Smooth ![1, 2, 3] := by
   · intro c; fin_cases c
     simp [Tree.val, linRule, dotProduct, Fin.sum_univ_three, Fin.sum_univ_two, cellIdx]
     norm_num
+
+/-- a vocabulary tree with a division, a maximum, a logarithm and a norm; admissibility is a finite list of
+    inequalities that `norm_num` decides at a concrete state -/
+noncomputable def vocabTree : VTree 3 1 :=
+  .op .add
+    (.matmul !![1, 1] (.op .div (.op .max (.var pDofs) (.var lDofs)) (.fn .log (.var lDofs))))
+    (.norm (cellIdx 1 2) (.var pDofs))
+
+theorem vocabTree_admissible : vocabTree.Admissible ![0, 2, 3] := by
+  refine ⟨⟨⟨trivial, trivial, ?_⟩, ⟨trivial, ?_⟩, ?_⟩, ⟨trivial, ?_⟩, fun _ => trivial⟩
+  · intro i; fin_cases i <;> simp [VTree.toTree, Tree.val, pDofs, lDofs, Op2.ok]
+  · intro i; fin_cases i <;> simp [VTree.toTree, Tree.val, lDofs, Fn1.ok]
+  · intro i
+    have hl : Real.log 3 ≠ 0 := by
+      have : (0 : ℝ) < Real.log 3 := Real.log_pos (by norm_num)
+      exact this.ne'
+    fin_cases i <;> simpa [VTree.toTree, Tree.val, lDofs, Op2.ok, Fn1.rule, logRule, ewise1] using hl
+  · intro c; fin_cases c
+    simp [VTree.toTree, Tree.val, pDofs, cellIdx, Fin.sum_univ_two]
+
+example (δ : Vec 3) (r : Row (fun _ : Fin 1 => 1)) :
+    HasDerivAt (fun ε : ℝ => residual (fun _ : Fin 1 => vocabTree.toTree) (![0, 2, 3] + ε • δ) r)
+      ((assembleJac (fun _ : Fin 1 => vocabTree.toTree) ![0, 2, 3]).mulVec δ r) 0 :=
+  vocab_assemble_jac_is_derivative (k := fun _ : Fin 1 => 1) (fun _ => vocabTree) _ (fun _ => vocabTree_admissible) δ r
+
+/-- sub-system of the example system: any selection of rows, columns of the pressure only -/
+example (x : Vec 3) (η : Vec 2) (rows : Fin 2 → Row ![2, 1]) (i : Fin 2) :
+    HasDerivAt (fun ε : ℝ => residual exEqs (x + ε • scatter pDofs η) (rows i))
+      (((assembleJac exEqs x).submatrix rows pDofs).mulVec η i) 0 :=
+  assemble_subsystem_jac_is_derivative exEqs x (fun e => by
+    match e with
+    | 0 => exact accTree_smooth x
+    | 1 => exact fluxTree_smooth x) rows pDofs η i
+
+/-- Newton: the hypothesis `A δ = b` is satisfiable (the one-equation linear system `2·x₀ = 0` at `x₀ = 1`, `δ = -1`) -/
+noncomputable def linEq : (e : Fin 1) → Tree 1 ((fun _ : Fin 1 => 1) e) :=
+  fun _ => .un (linRule !![(2 : ℝ)]) (.var id)
+
+theorem linEq_smooth (x : Vec 1) (e : Fin 1) : (linEq e).Smooth x := ⟨trivial, matmul_sound _ _⟩
+
+example (r : Row (fun _ : Fin 1 => 1)) :
+    HasDerivAt (fun ε : ℝ => residual linEq (![1] + ε • ![-1]) r) (-(residual linEq ![1] r)) 0 :=
+  newton_step_exact_linearization linEq ![1] (linEq_smooth _) ![-1] (by
+    funext r
+    obtain ⟨e, i⟩ := r
+    simp [assembleJac, assembleRhs, linEq, Tree.jac, Tree.val, linRule, Matrix.mulVec, Matrix.vecMul, dotProduct, selMat]) r
 
 end example_system
 
